@@ -393,6 +393,10 @@ def fast_run(items):
 PROBE_HEAD = r'''#![allow(unused, clippy::all, overflowing_literals, unused_parens, unused_braces)]
 use ruint::{uint, Bits, Uint};
 
+macro_rules! via_expr { ($e:expr) => { uint!($e) }; }
+macro_rules! via_expr2 { ($e:expr) => { uint!({ let v = ($e, 1u8); v.0 }) }; }
+macro_rules! via_tt { ($t:tt) => { uint!($t) }; }
+
 fn csv(l: &[u64]) -> String {
     if l.is_empty() { "-".to_string() } else { l.iter().map(|w| format!("{w:x}")).collect::<Vec<_>>().join(",") }
 }
@@ -452,6 +456,10 @@ WRAPS = [
     'uint!(' + '(' * 70 + '@' + ')' * 70 + ')',
     'uint!(' + '(' * 130 + '@' + ')' * 130 + ')',
     'uint!(' + '{ (' * 40 + '@' + ') }' * 40 + ')',
+    # the literal reaches `uint!` through a `macro_rules!` fragment capture, i.e. inside an invisible (`Delimiter::None`) group
+    'via_expr!(@)',
+    'via_expr2!((@))',
+    'via_tt!(@)',
 ]
 
 
